@@ -451,12 +451,9 @@ oscore_increment_sender_seq(oscore_ctx_t *ctx) {
 void
 oscore_roll_back_seq(oscore_recipient_ctx_t *ctx) {
 
-  if (ctx->rollback_sliding_window != 0) {
-    ctx->sliding_window = ctx->rollback_sliding_window;
-    ctx->rollback_sliding_window = 0;
-  }
-  if (ctx->rollback_last_seq != 0) {
-    ctx->last_seq = ctx->rollback_last_seq;
-    ctx->rollback_last_seq = 0;
-  }
+  ctx->sliding_window = ctx->rollback_sliding_window;
+  ctx->last_seq = ctx->rollback_last_seq;
+  /* An empty window means that no Partial IV had been accepted yet */
+  if (ctx->sliding_window == 0)
+    ctx->initial_state = 1;
 }
